@@ -6,6 +6,8 @@ cd "$(dirname "$0")"
 ID=$1; shift
 D=seeded/$ID
 PROP=$(python3 -c "import json;print(json.load(open('$D/meta.json'))['property'])")
+# seedtest.sh <id> --prop <Cnn> ...: run another property's check against the same change
+if [ "${1:-}" = "--prop" ]; then PROP=$2; shift 2; fi
 WT=/tmp/seedwt-$ID-$$
 git -C /repo worktree add --detach "$WT" HEAD -q || exit 2
 trap 'git -C /repo worktree remove --force "$WT" >/dev/null 2>&1; rm -rf "$WT"' EXIT
